@@ -29,7 +29,7 @@ ASSUMPTIONS = ["don't-care: requested id exactly 100; a unique newcomer re-using
                "request when all 100 dynamic ids are held (either refusal form)",
                "is_daemon is only visible in manager state (Module.is_daemon); read at quiescence"]
 REQUIRE = {"must_refuse_checked": 100, "must_accept_checked": 300, "dynamic_ids_checked": 200, "client_info_compared": 200,
-           "api_connects": 40}
+           "api_connects": 40, "api_reconnects": 10}
 CASE_TIMEOUT = 150
 IDS = [0, 0, 1, 10, 10, 99, 100, 101, 199, 200, -1, 32767, 10, 11]
 NAMES = ["", "", "shared", "shared", "n1", "n2"]
@@ -177,10 +177,16 @@ def judge_raw(sc, case):
                 if not mine:
                     V.append({"mech": "client_info_missing", "detail": f"no CLIENT_INFO for accepted {L}"})
                 else:
-                    x = mine[0]
                     C["client_info_compared"] = C.get("client_info_compared", 0) + 1
                     want = {"mod_id": cs.mod_id, "is_logger": int(bool(d.get("logger"))), "is_unique": int(unique),
                             "name": (d.get("name", "") if d["kind"] == "hello_v2" else "")}
+                    x = mine[0]
+                    if sum(1 for o in sc.cl.values() if o.addr[1] == cs.addr[1]) > 1:
+                        # the kernel gave this client port to more than one connection of the case (long cases under
+                        # port pressure): the announcements for that port belong to several connections; this one must
+                        # be among them
+                        C["client_info_port_reused"] = C.get("client_info_port_reused", 0) + 1
+                        x = next((y for y in mine if {k: y[k] for k in want} == want), mine[-1])
                     have = {k: x[k] for k in want}
                     if have != want:
                         V.append({"mech": "client_info_mismatch", "detail": f"{L}: requested {want} manager announced {have}"})
@@ -241,13 +247,43 @@ def run_api(case):
             if any(v for k2, v in opts.items()) or daemon:
                 res["nontrivial"] = True
             n0 = len(mon.frames()[0])
-            try:
+            plain = [(c0, o0) for c0, cm0, o0 in held if cm0 is None]
+            if plain and rng.random() < 0.3:
+                # the same Client object connects again: after disconnect(), after losing its connection, or directly
+                c0, o0 = rng.choice(plain)
+                mode = rng.choice(["clean", "lost", "direct"])
+                entry = "reconnect_" + mode
+                opts = dict(opts, name=o0["name"], module_id=o0["module_id"])
+                try:
+                    if mode == "clean":
+                        c0.disconnect()
+                    elif mode == "lost":
+                        from pyrtma.exceptions import ConnectionLost, NotConnectedError
+                        try:
+                            c0._sock.shutdown(2)
+                        except OSError:
+                            pass
+                        for _ in range(50):
+                            try:
+                                c0.read_message(timeout=0.05)
+                            except (ConnectionLost, NotConnectedError):
+                                break
+                            except Exception:
+                                pass
+                    c0.connect(server, opts["logger_status"], daemon, opts["allow_multiple"])
+                    c = c0
+                    C["api_reconnects"] = C.get("api_reconnects", 0) + 1
+                except Exception as e:
+                    V.append({"mech": "api_reconnect_failed:" + mode, "detail": f"{entry} {opts}: {type(e).__name__}: {e}"})
+                    continue
+            else:
+              try:
                 if entry == "context":
                     cm = client_context(module_id=opts["module_id"], server_name=server, timecode=tc,
                                         logger_status=opts["logger_status"], allow_multiple=opts["allow_multiple"], name=opts["name"])
                     c = cm.__enter__()
                     daemon = False  # client_context has no daemon option: the manager must see daemon off
-                    held.append((c, cm))
+                    held.append((c, cm, opts))
                 else:
                     c = Client(module_id=opts["module_id"], timecode=tc, name=opts["name"])
                     if entry == "connect":
@@ -255,8 +291,8 @@ def run_api(case):
                     else:
                         c.connect(server_name=server, allow_multiple=opts["allow_multiple"], daemon_status=daemon,
                                   logger_status=opts["logger_status"])
-                    held.append((c, None))
-            except Exception as e:
+                    held.append((c, None, opts))
+              except Exception as e:
                 V.append({"mech": "api_connect_failed", "detail": f"{entry} {opts}: {type(e).__name__}: {e}"})
                 continue
             C["api_connects"] = C.get("api_connects", 0) + 1
@@ -297,7 +333,7 @@ def run_api(case):
                     V.append({"mech": f"option_not_honoured:{entry}:daemon", "detail": f"{entry}({opts}, daemon={daemon}): Module.is_daemon={mod.is_daemon}"})
             except StopIteration:
                 pass
-        for c, cm in held:
+        for c, cm, _o in held:
             try:
                 c._sock.close()
                 c._connected = False
